@@ -1,6 +1,7 @@
 package engine
 
 import (
+	"sync"
 	"crypto/sha256"
 	"fmt"
 	repocommon "github.com/nspcc-dev/neofs-contract/common"
@@ -51,6 +52,9 @@ type AuthGrid struct {
 	uncovered           []string
 }
 
+// effectless collects the methods whose authorised run changed nothing in the base state (reported in the evidence).
+var effectless sync.Map
+
 var authSignerSets = []string{"S", "M1", "AL", "CM", "K", "K+AL", "K+CM", "M-minority", "AUD"}
 
 func NewAuthGrid(n int) *AuthGrid { return &AuthGrid{N: n} }
@@ -90,6 +94,11 @@ func (d *AuthGrid) Build() *World {
 	rm := w.E.NativeHash(w.T, nativenames.Designation)
 	w.Invoke(rm, cm, "designateAsRole", int64(16), ks) // Inner Ring / NeoFSAlphabet role: the committee keys
 	w.Invoke(w.GasHash, []neotest.Signer{d.u.S}, "transfer", d.u.Hash, ab.Hash, int64(1000), nil)
+	// the Alphabet contract holds NEO and the key it is asked to vote for is a registered candidate, so that an
+	// authorised vote() has an effect (the NEO account state of the contract changes)
+	w.FundNEO(ab.Hash, 10)
+	w.FundGAS(w.Members[0].Hash, 2000*gasUnit)
+	w.Invoke(w.NeoHash, []neotest.Signer{w.Members[0].S}, "registerCandidate", w.Pubs[0].Bytes())
 	w.Invoke(w.GasHash, []neotest.Signer{d.u.S}, "transfer", d.u.Hash, nf.Hash, int64(50*gasUnit), nil)
 	w.Invoke(nf.Hash, []neotest.Signer{d.x.S}, "innerRingCandidateAdd", d.x.Pub())
 	// storage node: candidate in both lists and member of the previous network map
@@ -171,7 +180,10 @@ func (d *AuthGrid) Extra() map[string]any {
 		w := d.Build()
 		w.Close()
 	}
-	return map[string]any{"uncovered_methods": d.uncovered, "table_rows": len(d.rows)}
+	var el []string
+	effectless.Range(func(k, _ any) bool { el = append(el, k.(string)); return true })
+	sort.Strings(el)
+	return map[string]any{"uncovered_methods": d.uncovered, "table_rows": len(d.rows), "authorised_runs_without_effect": el}
 }
 
 func (d *AuthGrid) Cases(string) []GridCase {
@@ -377,6 +389,7 @@ func (d *AuthGrid) Eval(x *Exec, root *Node, gc GridCase) GridResult {
 				// the authorised run itself has no effect in this base state: the "inert without the witnesses" verdicts
 				// of this row say little (listed in the evidence, never a failure)
 				out = "succeeded-without-effect"
+				effectless.Store(r.Contract+"."+r.Method, true)
 			}
 		} else if !inert {
 			vs = append(vs, Viol("effect-without-witness", fmt.Sprintf("%s.%s under %s (required %v): halt=%v, storage diff %v, notifications %v", r.Contract, r.Method, c.Signer, r.Req, o.Halt, diff, o.Notifs), where))
